@@ -32,6 +32,10 @@ type Reply struct {
 	Silent  bool        // no answer: the request ends with the read timeout (or the caller's context)
 	Resp    *pb.Message // answer (round-tripped through its wire encoding before delivery)
 	Raw     []byte      // if non-nil: wire bytes of the answer (may be malformed: then the exchange fails like a decode error)
+	// LateGrace > 0: if the caller's context ends while no more than this is left of Latency, the exchange completes all the
+	// same (the answer was already arriving: a read that completes concurrently with the cancellation), instead of failing
+	// with the context error.
+	LateGrace time.Duration
 }
 
 // Exchange is one logged interaction with a simulated peer.
@@ -194,9 +198,14 @@ func (s *Sim) exchange(ctx context.Context, kind string, p peer.ID, req *pb.Mess
 		s.end(e, "timeout", nil)
 		return nil, ErrSimTimeout
 	}
+	waitFrom := time.Now()
 	if err := WaitContext(ctx, lat); err != nil {
-		s.end(e, "cancelled", nil)
-		return nil, err
+		rem := lat - time.Since(waitFrom)
+		if r.LateGrace <= 0 || rem > r.LateGrace {
+			s.end(e, "cancelled", nil)
+			return nil, err
+		}
+		time.Sleep(rem)
 	}
 	if r.Fail {
 		s.end(e, "fail", nil)
